@@ -9,7 +9,7 @@ ROOT=$(cd "$(dirname "$0")/.." && pwd)
 [ -f "$CH/patch.diff" ] || { echo "$ID-$K: no patch"; exit 2; }
 cd "$WT" || exit 2
 git checkout -q -- src include
-CC=$(grep -v '^#' "$CH/BUILD.txt" | grep -m1 -E '(^|&& )(g\+\+|clang\+\+) ' | sed -E 's/^.*&& ((g|clang)\+\+)/\1/; s/ *#.*$//; s/ && .*$//')
+CC=$(grep -v '^#' "$CH/BUILD.txt" | sed -e ':a' -e '/\\$/N' -e 's/\\\n//' -e 'ta' | grep -E '(^|&& )(g\+\+|clang\+\+) ' | grep -m1 '_build/libOPNMIDI.a' | sed -E 's/^.*&& ((g|clang)\+\+)/\1/; s/ *#.*$//; s/ && .*$//')
 [ -n "$CC" ] || { echo "$ID-$K: no compile line in BUILD.txt"; exit 2; }
 CC=$(echo "$CC" | sed -E "s# -o +[^ ]+# -o OUT/change$K/demo#")
 build() { cmake -G Ninja -S . -B _build -DWITH_UNIT_TESTS=ON -DCMAKE_BUILD_TYPE=RelWithDebInfo >/dev/null 2>&1 && cmake --build _build >/dev/null 2>&1; }
